@@ -196,18 +196,10 @@ def exec_op(schema, entry, env, op, counters=None):
     call['src'] = src
 
     if abort and abort['kind'] == 'async':
-        # count the library calls of this op on a forked copy of the current state, then abort at frac*N
-        def _count():
-            cc = CallCounter()
-            sys.settrace(cc)
-            try:
-                ops.run_op(schema, env, data, call, hooks)
-            finally:
-                sys.settrace(None)
-            return cc.n
-        kind, n = fork_call(_count, (), timeout=60)
-        n = n if kind == 'ok' and isinstance(n, int) else 0
-        k = max(1, int(abort['frac'] * n)) if n else 1
+        # abort at the k-th library call of the operation, k log-uniform in [100, 20000] from the case's
+        # fraction (no measuring pass: a k beyond the operation's length simply never fires)
+        n = None
+        k = max(1, int(10 ** (2.0 + abort["frac"] * 2.3)))
         cc = CallCounter(abort_at=k)
         sys.settrace(cc)
         try:
@@ -224,7 +216,7 @@ def exec_op(schema, entry, env, op, counters=None):
             out['judged'] = False
             count('async_abort_fired')
             count('async_abort_in_' + str(e).split(':')[0])
-        out['calls'] = n
+        out['abort_at'] = k
         return out
 
     keep = {}
